@@ -286,6 +286,9 @@ def wait_conditions(prog):
     return out
 
 
+from .. import guards as G_  # noqa: E402
+
+
 def rule_wakeups(ctx):
     r = ctx.rule("C10.R9", "T2", "no lost wake-up: for every condition-variable wait loop, each write that can make its condition "
                  "false (decrement, list removal, flag change in the releasing direction) is accompanied, in the same critical "
@@ -352,6 +355,23 @@ def rule_wakeups(ctx):
                     for pid in fn.blocks[cur].preds:
                         pb = fn.blocks[pid]
                         if pb.term and len(pb.succs) == 2 and pb.term.get("kind") in ("IfStmt", "&&", "||"):
+                            # a wake under a condition is as good as a wake only if the condition cannot be false while
+                            # this waiter waits: every field the guard needs set is either part of the waiter's own
+                            # predicate or was stored by the waiter before it went to sleep
+                            gc = fn.cond(pid)
+                            k_to = pb.succs.index(cur) if cur in pb.succs else 0
+                            valid = True
+                            for lf, t in (polarities(fn, gc) if gc is not None else []):
+                                need = t if k_to == 0 else -t
+                                if lf in fields:
+                                    continue
+                                fld = lf.split(".", 1)[1]
+                                pre = [x for x in G_.stores(wf, fld, value="nonnull" if need > 0 else "null")]
+                                if not pre or not all(wf.dominated_by((ws.b, ws.i), blocked=lambda b, i, e, x=x: (b, i) == (x.b, x.i))
+                                                      for x in pre[:1]):
+                                    valid = False
+                            if not valid:
+                                continue
                             wakes.add((pid, max(len(pb.elems) - 1, 0)))
                             nonref = [e for e in pb.elems if e is not None and e.get("k") != "ref"]
                             if pb.term.get("kind") in ("&&", "||") or len(nonref) <= 1:
@@ -521,9 +541,53 @@ def rule_refs(ctx):
                             break
 
 
+
+def rule_closeall(ctx):
+    """C10.R5: a close / fini function looks at every parked-operation field it handles on every path"""
+    from .. import guards as G
+    r = ctx.rule("C10.R5", "T2", "close completes everything: a protocol function that aborts the operations parked on a context or "
+                 "socket (ctx_fini / sock_close slots and the *_ctx_close helpers they call) examines each parked-aio field it "
+                 "handles on every path -- handling one pending operation must not skip the other", floor=8)
+    prog = ctx.prog
+    fns = []
+    for slot in ("nni_proto_ctx_ops.ctx_fini", "nni_proto_sock_ops.sock_close"):
+        for f in prog.slot_fns(slot):
+            if f not in fns and not f.cfg_failed:
+                fns.append(f)
+            for c in f.calls():
+                h = prog.resolve(f, c.node["fn"]) if c.node.get("fn") else None
+                if h is not None and h.file == f.file and not h.cfg_failed and h.name.endswith(("_close", "_abort")) and h not in fns:
+                    fns.append(h)
+    n = 0
+    for f in fns:
+        # fields of aio-pointer type that this function reads and clears
+        flds = {}
+        for s in f.sites():
+            nd = s.node
+            if nd.get("k") == "mem" and (nd.get("t") or "").replace(" ", "") in ("nni_aio*", "nng_aio*", "structnng_aio*"):
+                flds.setdefault(last_field(nd), []).append((s.b, s.i))
+        handled = {lf: pos for lf, pos in flds.items()
+                   if any(t.node["lhs"].get("k") == "mem" and last_field(t.node["lhs"]) == lf and is_null(f.expand(t.node["rhs"]))
+                          for t in f.assigns())}
+        if len(handled) < 2:
+            continue
+        for lf, pos in handled.items():
+            n += 1
+            if G.must_pass(f, (f.entry, 0), set(pos)):
+                ctx.fail(r, f, "%s not examined on every path" % lf, f.line,
+                         "%s aborts the operation parked in %s on some paths only: a path that handled another pending operation "
+                         "returns without looking at it, so that operation never completes and close waits for it forever"
+                         % (f.name, lf), G.path_lines(f, (f.entry, 0), (f.exit, 0), None, set(pos)))
+            else:
+                r.ob(f, "%s examined on every path" % lf)
+    if n < 6:
+        raise AnalysisBroken("only %d parked-aio fields in close functions" % n)
+
+
 def run(ctx):   # noqa: F811
     _run0(ctx)
     ctx.guard(rule_refs)
+    ctx.guard(rule_closeall)
     ctx.guard(rule_wakeups)
     from . import c02
     ctx.guard(c02.rule_a7)
